@@ -42,3 +42,48 @@ fn h_w_dns_roundtrip() {
         assert_eq!(m.to_message().unwrap().to_vec(), wire, "re-encoding differs from the consumed bytes");
     }
 }
+
+// ---------------------------------------------------------------------------
+// BOUNDED stand-in for the DNS codec (kind=witness: never run by Kani, never counted as proved).  Run on the real code only
+// when the Verus unit `dns` cannot ingest a changed function: every truncation and five single-byte corruptions per
+// position of a set of well-formed messages, and 20000 pseudo-random byte strings of length 0..=60, are fed to the decoder:
+// it must not panic (query_name included), and whatever it accepts must re-encode to a prefix of the input.
+// ---------------------------------------------------------------------------
+//# id=witness.decoder_accepts_only_what_reencodes props=C08,C14 kind=witness pair=dns.DnsMessage.from_bytes.reencoding_reproduces_the_consumed_bytes,dns.DnsMessage.from_bytes.safety,dns.DnsMessage.from_bytes.never_panics,dns.DnsMessage.to_message.emits_the_wire_layout,dns.DnsMessage.from_bytes.decoding_the_encoding_gives_back_the_value,dns.DnsQuestion.query_name.safety
+#[cfg(vx_replay)]
+#[test]
+fn h_w_dns_decode_model() {
+    use std::panic::catch_unwind;
+    fn check(input: Vec<u8>, what: &str) {
+        let inp = input.clone();
+        let r = catch_unwind(move || DnsMessage::from_bytes(inp.into_iter()).ok().map(|m| { let _ = m.question.query_name(); m.to_message().map(|x| x.to_vec()) }));
+        match r {
+            Err(_) => panic!("decoder or encoder panicked on {what}: {input:02x?}"),
+            Ok(None) => {}
+            Ok(Some(Err(_))) => panic!("an accepted message cannot be re-encoded ({what}): {input:02x?}"),
+            Ok(Some(Ok(again))) => assert!(again.len() <= input.len() && again[..] == input[..again.len()],
+                "decoder accepted {what} but re-encoding gives different bytes\n input    {input:02x?}\n re-coded {again:02x?}"),
+        }
+    }
+    let mut good: Vec<Vec<u8>> = Vec::new();
+    for (qn, an, rdata) in [(&b"example.com"[..], &b"example.com"[..], vec![10u8, 11, 12, 13]), (&b""[..], &b"a"[..], vec![]), (&b"x"[..], &b""[..], vec![7u8; 9])] {
+        let mut rr = DnsResourceRecord::new(an.to_vec(), 77, Ipv4Address::new([1, 2, 3, 4]));
+        rr.rdlength = rdata.len() as u16;
+        rr.rdata = rdata;
+        let h = DnsHeader::new(0xbeef, DnsMessageType::RESPONSE);
+        good.push(DnsMessage::new(h, DnsQuestion::new(qn.to_vec()), rr).unwrap().to_message().unwrap().to_vec());
+    }
+    for p in &good {
+        check(p.clone(), "a well-formed message");
+        for n in 0..p.len() { check(p[..n].to_vec(), "a truncated message"); }
+        for i in 0..p.len() { for v in [0u8, 1, 0x20, 0x80, 0xff] { let mut q = p.clone(); q[i] = v; check(q, "a corrupted message"); } }
+        let mut q = p.clone(); q.extend_from_slice(&[1, 2, 3]); check(q, "a message with trailing bytes");
+    }
+    let mut s: u64 = 0x2468_ace0_1357_9bdf;
+    let mut next = |n: usize| { s = s.wrapping_mul(6364136223846793005).wrapping_add(1442695040888963407); ((s >> 33) as usize) % n.max(1) };
+    for _ in 0..20000 {
+        let n = next(61);
+        let v: Vec<u8> = (0..n).map(|_| match next(4) { 0 => 0x20, 1 => next(8) as u8, _ => next(256) as u8 }).collect();
+        check(v, "a pseudo-random byte string");
+    }
+}
